@@ -12,7 +12,7 @@
 //
 //		m <map#|-1|-2> g <targetClient> k <code#|-1|-2> d <dom#|-1|-2>
 //		W conns <n> (<N|U|A><clientID>)* maps <n> (<listen>:<target>:<s|t>:<a|i>)*
-//		  codes <n> (<target>:<0|1>)* doms <n> (<owner>)*
+//		  codes <n> (<target>:<0|1|activator>)* doms <n> (<owner>)*
 //		(first token `x` instead of `c`: excluded point of the model comparison, see ambiguousDefaultTarget)
 //
 // obs:   <run> ~ <run>     first run: the packet as given; second run: the same packet with
@@ -128,6 +128,7 @@ type mapSpec struct {
 type codeSpec struct {
 	target    int64
 	activated bool
+	by        int64 // >= 2: the client that activated the code through the real service (a mapping by -> target exists)
 }
 type kase struct {
 	ctype    int
@@ -236,7 +237,7 @@ func parseCase(s string) (*kase, error) {
 		if len(p) != 2 {
 			return nil, fmt.Errorf("bad code")
 		}
-		k.codes = append(k.codes, codeSpec{atoi64(p[0]), p[1] == "1"})
+		k.codes = append(k.codes, codeSpec{atoi64(p[0]), p[1] != "0", atoi64(p[1])})
 		i++
 	}
 	if n, err = next("doms"); err != nil {
@@ -715,7 +716,17 @@ func buildWorld(k *kase) (*world, error) {
 		if err != nil {
 			return nil, fmt.Errorf("create code: %w", err)
 		}
-		if c.activated {
+		if c.by >= 2 {
+			// the real history: client `by` activates the code; the mapping by -> target it creates joins the world's
+			// mappings (after the listed ones, in the order of the codes)
+			pm, err := ccs.ActivateConnectionCode(&services.ActivateConnectionCodeRequest{Code: code.Code, ListenClientID: c.by,
+				ListenAddress: fmt.Sprintf("127.0.0.1:%d", 9200+i)})
+			if err != nil {
+				return nil, fmt.Errorf("activate code: %w", err)
+			}
+			w.mapIDs = append(w.mapIDs, pm.ID)
+			w.mapKeys = append(w.mapKeys, pm.SecretKey)
+		} else if c.activated {
 			// mark as used by a client outside the cast, without creating a mapping
 			if err := code.Activate(999999, fmt.Sprintf("pm_used_%d", i)); err != nil {
 				return nil, err
@@ -1149,6 +1160,7 @@ func clientIDs(k *kase) []int64 {
 	}
 	for _, c := range k.codes {
 		add(c.target)
+		add(c.by)
 	}
 	for _, d := range k.doms {
 		add(d)
@@ -1515,7 +1527,7 @@ func gen(out *vc.Out, r *vc.Rand, thorough bool) {
 	conns := []string{"A1001", "A1002", "A1003", "U0", "N0", "P1001", "F1001"}
 	std := worldStr(conns,
 		[]string{"1001:1002:s:a", "1002:1001:t:a", "1003:1003:t:i"},
-		[]string{"1002:0", "1001:1", "1003:0"},
+		[]string{"1002:0", "1001:1", "1003:0", "1002:1001"}, // the last one: B's code, used by A through the real service (mapping #3 = A -> B)
 		[]string{"1001", "1002"})
 	type claim struct {
 		snd, rcv int64
@@ -1543,7 +1555,7 @@ func gen(out *vc.Out, r *vc.Rand, thorough bool) {
 				for _, resp := range []bool{false, true} {
 					objs := []int{0}
 					if usesObject(ct) {
-						objs = []int{0, 1, 2, -1, -2}
+						objs = []int{0, 1, 2, 3, -1, -2}
 					}
 					for _, o := range objs {
 						gs := []int64{0}
@@ -1610,7 +1622,7 @@ func gen(out *vc.Out, r *vc.Rand, thorough bool) {
 	}
 	for _, ct := range []int{72, 86, 85} {
 		for _, o := range owners {
-			for _, st := range []int{0, 1} {
+			for _, st := range []int64{0, 1, A, B, S} {
 				for from := 0; from < 4; from++ {
 					cs := []string{"A1001", "A1003", "U0", "N0"}
 					w := worldStr(cs, nil, []string{fmt.Sprintf("%d:%d", o, st)}, []string{fmt.Sprint(o)})
@@ -1737,7 +1749,7 @@ func gen(out *vc.Out, r *vc.Rand, thorough bool) {
 			ms = append(ms, fmt.Sprintf("%d:%d:%s:%s", vc.Pick(r, ids), vc.Pick(r, ids), vc.Pick(r, []string{"s", "t"}), vc.Pick(r, []string{"a", "a", "i"})))
 		}
 		for j := r.Intn(3); j > 0; j-- {
-			cds = append(cds, fmt.Sprintf("%d:%d", vc.Pick(r, ids), r.Intn(2)))
+			cds = append(cds, fmt.Sprintf("%d:%d", vc.Pick(r, ids), vc.Pick(r, []int64{0, 0, 1, A, B, S, 1004})))
 		}
 		for j := r.Intn(3); j > 0; j-- {
 			ds = append(ds, fmt.Sprintf("%d", vc.Pick(r, ids)))
